@@ -1023,6 +1023,7 @@ pub struct ObjFiber {
     pub(crate) exc_handlers: Vec<ExcHandler>,
     pub(crate) return_ip: Option<*const u8>,
     pub(crate) error_ip: Option<*const u8>,
+    pub(crate) handling_exception: bool,
 }
 
 impl ObjFiber {
@@ -1046,6 +1047,7 @@ impl ObjFiber {
             exc_handlers: Vec::new(),
             return_ip: None,
             error_ip: None,
+            handling_exception: false,
         }
     }
 
